@@ -38,7 +38,7 @@ def build_objects(rng):
     from mwparserfromhell.nodes.extras import Attribute, Parameter
     objs = []
     docs = ["{{t|a|k=v}}text&amp;[[l|t]]<b a=\"1\" c>x</b>==h==\n<!--c-->{{{a|b}}}[http://x y] ''i''",
-            "", "x", "  padded  ", "{{a}}"]
+            "", "x", "  padded  ", "{{a}}", "5", "None", "3.5", "[1, 2]", "{{foo|5}}", "True", "()", "b'x'"]
     for _ in range(3):
         docs.append(wikigen.gen_doc(rng, depth=3))
     for d in docs:
@@ -167,6 +167,21 @@ def run(tier, seed):
                     c.fail("comparison %s with %r differs from str" % (nm, o), {"class": cn, "text": s, "other": o})
             if outcome(lambda: o in x) != outcome(lambda: o in s):
                 c.fail("containment of %r differs from str" % o, {"class": cn, "text": s, "other": o})
+        # operands that are not strings (some of them print like the text): == / != must answer what str answers, in
+        # both operand orders; ordering must raise what str raises
+        import ast as _ast
+        lit = None
+        try:
+            lit = _ast.literal_eval(s)
+        except Exception:  # noqa: BLE001
+            pass
+        for o in [5, None, 3.5, b"x", [1, 2], (), 0, True, lit]:
+            if isinstance(o, str):
+                continue
+            for nm, f in ops:
+                c.cov["evaluations"] += 2
+                if outcome(lambda: f(x, o)) != outcome(lambda: f(s, o)) or (nm in ("==", "!=") and outcome(lambda: f(o, x)) != outcome(lambda: f(o, s))):
+                    c.fail("comparison %s with the non-string %r differs from str" % (nm, o), {"class": cn, "text": s, "other": repr(o)})
         unary = [("len", len), ("bool", bool), ("repr", repr), ("bytes", lambda v: bytes(v) if not isinstance(v, str) else bytes(v, __import__("sys").getdefaultencoding())), ("iter", lambda v: list(iter(v))),
                  ("reversed", lambda v: list(reversed(v))), ("format>8", lambda v: format(v, ">8")), ("format", lambda v: format(v, "")),
                  ("fstring", lambda v: "{:^7}|{!r}".format(v, v)), ("hash-eq", lambda v: v == v)]
